@@ -338,14 +338,18 @@ def _complex_integral(
         b: Optional[float] = 1.0,
         epsrel: Optional[float] = INTEGRATE_EPSREL,
         limit: Optional[int] = SUBDIV_LIMIT) -> complex:
+    # epsabs=0.0: `epsrel` is a relative tolerance also for integrals that are
+    # small in the user's units (scipy's default epsabs is 1.49e-8)
     re_int = integrate.quad(lambda x: np.real(integrand(x)),
                             a=a,
                             b=b,
+                            epsabs=0.0,
                             epsrel=epsrel,
                             limit=limit)[0]
     im_int = integrate.quad(lambda x: np.imag(integrand(x)),
                             a=a,
                             b=b,
+                            epsabs=0.0,
                             epsrel=epsrel,
                             limit=limit)[0]
 
